@@ -13,6 +13,11 @@ from amaranth import *
 from ..harness import Harness
 from ..engine import Query
 from ..lib.usb2 import crc5_serial
+from ..lib import bitwise_assign
+
+# LinkCommandGenerator's `link_command` signal feeds its own upper bits (CRC of its lower bits): one NIR cell that is
+# cyclic at cell level; the translator is patched locally to evaluate such cells bit by bit (see lib/bitwise_assign.py)
+bitwise_assign.install()
 
 PROP = "C35"
 ENCODED = ["luna/gateware/usb/usb3/link/command.py: LinkCommandGenerator.elaborate (IDLE/TRANSMIT_HEADER/TRANSMIT_COMMAND, "
